@@ -163,22 +163,24 @@ def generate(rng, profile):
         obs_holders = [rng.randrange(n_parties)]
 
     parties = []
+    anchor = (rng.randrange(nT), rng.randrange(nL), rng.randrange(nS)) if rng.random() < 0.9 else (None, None, None)
     same_base = rng.choice([".nc", ".txt", ".dat"]) if rng.random() < p.get("p_same_basename", 0.12) else None
     for k in range(n_parties):
         is_clim = has_clim and k == n_parties - 1
         fmt = "nc" if rng.random() < p.get("p_nc", 0.35) else "text"
         # own subset + extra-free: dims are subsets of the universe, in own order
-        def subset(n, keep_p):
-            idx = [i for i in range(n) if rng.random() < keep_p]
+        def subset(n, keep_p, must=None):
+            idx = [i for i in range(n) if rng.random() < keep_p or i == must]
             if not idx:
                 idx = [rng.randrange(n)]
             return idx
         keep = p.get("p_keep_dim", 0.85)
         if rng.random() < p.get("p_full_coverage", 0.3):
             keep = 1.0
-        t_idx = subset(nT, keep)
-        l_idx = subset(nL, keep)
-        s_idx = subset(nS, keep)
+        # (one anchor entry per dimension is in every file, so that the common set is rarely empty)
+        t_idx = subset(nT, keep, anchor[0])
+        l_idx = subset(nL, keep, anchor[1])
+        s_idx = subset(nS, keep, anchor[2])
 
         def reorder(idx):
             # the file lists this dimension in its own order
